@@ -1,0 +1,27 @@
+//go:build verif
+
+package storagesc
+
+import (
+	cstate "0chain.net/chaincore/chain/state"
+	"0chain.net/core/config"
+)
+
+// Thin wrappers for the verification harness (governance settings, C48/C06). No logic.
+
+func VerifGovGetConfig(balances cstate.StateContextI) (*Config, error) {
+	return (&StorageSmartContract{}).getConfig(balances, true)
+}
+
+func VerifGovGet(conf *Config, name string) interface{} { return conf.get(Settings[name].setting) }
+
+func VerifGovValidate(conf *Config) error { return conf.validate() }
+
+func VerifGovSettingChanges(balances cstate.StateContextI) (*config.StringMap, error) {
+	return getSettingChanges(balances)
+}
+
+func VerifGovSettingType(name string) (config.ConfigType, bool) {
+	s, ok := Settings[name]
+	return s.configType, ok
+}
